@@ -562,6 +562,21 @@ func c05SafeIndex(c *Ctx) {
 		}
 		v := c.view(fd)
 		accs := v.spineAccesses(paths) // for a plain function (a constructor) only containers made on the path can be accessed
+		if v.recv == nil && name == "NewListOf" {
+			// the constructor re-slices and fills the list it has just made: every slice and index expression is executed on the spine
+			// model by C05.R9 (bounds checked against the fresh array, the content compared with the model), which is the stronger decision
+			r := newReport("tmp")
+			c2 := *c
+			c2.R = r
+			c05ListOf(&c2)
+			ok := len(r.obls) > 0
+			for _, o := range r.obls {
+				ok = ok && o.Status == Discharged
+			}
+			total++
+			c.Ob("C05.R2", name+"/fresh-spine", fd.Pos()).Check(ok, "every access lies in the list made by this call and is executed, bounds-checked, on the spine model (C05.R9)", "the accesses of the list being built are not decided by the spine model (C05.R9 fails)")
+			continue
+		}
 		ps := intParams(c, fd)
 		variadic := variadicParam(c, fd)
 		nMin := int64(0)
